@@ -19,8 +19,9 @@ Import-free apart from `TTV.Model.Reactor`. -/
 namespace TTV.AsyncRun
 open TTV.Reactor
 
-/-- exception classes: an error (ValueError), a failure (AssertionError), SkipTest -/
-inductive Exc | err | fail | skip
+/-- exception classes: an error (ValueError), a failure (AssertionError), SkipTest, and `ki` = an exception that
+no handler claims (KeyboardInterrupt, SystemExit) -/
+inductive Exc | err | fail | skip | ki
 deriving DecidableEq, Repr
 
 inductive Beh
@@ -39,16 +40,34 @@ inductive Side
   | expect                      -- self.expectThat(1, Equals(2))
 deriving DecidableEq, Repr
 
-structure Stage where
-  sides : List Side
-  beh : Beh
-deriving Repr
+/-- a stage function (setUp, the test method, tearDown, a cleanup): the cleanups it registers at its start (in
+order; cleanups may register cleanups), its side effects, its behaviour -/
+inductive Stage where
+  | mk (cleanups : List Stage) (sides : List Side) (beh : Beh)
 
-/-- a main stage: the cleanups it registers at its start (in order), then the stage proper -/
-structure MStage where
-  cleanups : List Stage
-  stage : Stage
-deriving Repr
+def Stage.cleanups : Stage → List Stage
+  | .mk cs _ _ => cs
+def Stage.sides : Stage → List Side
+  | .mk _ s _ => s
+def Stage.beh : Stage → Beh
+  | .mk _ _ b => b
+
+/- number of stages / an upper bound of the number of delayed calls, including everything registered transitively -/
+mutual
+def Stage.size : Stage → Nat
+  | .mk cs _ _ => 1 + sizeL cs
+def sizeL : List Stage → Nat
+  | [] => 0
+  | c :: cs => c.size + sizeL cs
+end
+
+mutual
+def Stage.calls : Stage → Nat
+  | .mk cs sides _ => sides.length + 1 + callsL cs
+def callsL : List Stage → Nat
+  | [] => 0
+  | c :: cs => c.calls + callsL cs
+end
 
 structure Prog where
   timeout : Nat
@@ -57,10 +76,9 @@ structure Prog where
   suppress : Bool               -- suppress_twisted_logging
   store : Bool                  -- store_twisted_logs
   nObs : Nat                    -- log observers installed before the run
-  setUp : MStage
-  body : MStage
-  tearDown : MStage
-deriving Repr
+  setUp : Stage
+  body : Stage
+  tearDown : Stage
 
 abbrev Input := Prog
 
@@ -90,7 +108,6 @@ structure Chain where
   stages : List (SName × Nat × Nat) := [] -- stage log: name, virtual time, number of log observers
   observers : List Nat := []              -- the global log observers (ids)
   realStops : Nat := 0                    -- calls of the genuine `reactor.stop`
-deriving Repr
 
 abbrev W := World CAct Chain
 
@@ -155,54 +172,60 @@ def Chain.noteCleanup (r : Option Exc) (c : Chain) : Chain :=
   | some k => { c with lastExc := some k }
   | none => c
 
-/-- `_run_cleanups`: pop and run; an exception is only remembered (the last one wins) -/
-def runCleanups : List (Nat × Stage) → W → W
-  | [], w => finishChain (updU (fun c => { c with stack := [] }) w)
-  | (i, c) :: rest, w =>
-    let w := launch (.cleanup i) c (updU (fun u => { u with stack := rest }) w)
-    match statusOf c.beh with
-    | .completed r => runCleanups rest (updU (Chain.noteCleanup r) w)
-    | .pending => updU (fun u => { u with pos := .cleanup }) w
+/-- `self.addCleanup(...)` for each, in order -/
+def Chain.register (cs : List Stage) (c : Chain) : Chain :=
+  cs.foldl (fun c s => { c with stack := (c.nextCleanup, s) :: c.stack, nextCleanup := c.nextCleanup + 1 }) c
 
-def afterCleanup (r : Option Exc) (w : W) : W :=
-  let w := updU (Chain.noteCleanup r) w
-  runCleanups w.u.stack w
+def stackSize (stack : List (Nat × Stage)) : Nat := (stack.map fun ic => ic.2.size).sum
+
+/-- `_run_cleanups`: `while case._cleanups: pop and run` (a cleanup may register more; the fuel `n` only has to
+exceed the number of stages on the stack, counted transitively); an exception - any `BaseException` since the fix
+of the lost KeyboardInterrupt - is only remembered, the last one wins -/
+def runCleanups : Nat → W → W
+  | 0, w => w
+  | n + 1, w =>
+    match w.u.stack with
+    | [] => finishChain w
+    | (i, c) :: rest =>
+      let w := launch (.cleanup i) c (updU (fun u => Chain.register c.cleanups { u with stack := rest }) w)
+      match statusOf c.beh with
+      | .completed r => runCleanups n (updU (Chain.noteCleanup r) w)
+      | .pending => updU (fun u => { u with pos := .cleanup }) w
+
+/-- run the cleanups that are on the stack now -/
+def cleanUp (w : W) : W := runCleanups (stackSize w.u.stack + 1) w
+
+def afterCleanup (r : Option Exc) (w : W) : W := cleanUp (updU (Chain.noteCleanup r) w)
 
 def Chain.noteMain (r : Option Exc) (c : Chain) : Chain :=
   match r with
   | some k => c.caught k
   | none => c
 
-/-- `self.addCleanup(...)` for each, in order -/
-def Chain.register (cs : List Stage) (c : Chain) : Chain :=
-  cs.foldl (fun c s => { c with stack := (c.nextCleanup, s) :: c.stack, nextCleanup := c.nextCleanup + 1 }) c
-
-def afterTearDown (r : Option Exc) (w : W) : W :=
-  let w := updU (Chain.noteMain r) w
-  runCleanups w.u.stack w
+def afterTearDown (r : Option Exc) (w : W) : W := cleanUp (updU (Chain.noteMain r) w)
 
 def startTearDown (p : Prog) (w : W) : W :=
-  let w := launch .tearDown p.tearDown.stage (updU (Chain.register p.tearDown.cleanups) w)
-  match statusOf p.tearDown.stage.beh with
+  let w := launch .tearDown p.tearDown (updU (Chain.register p.tearDown.cleanups) w)
+  match statusOf p.tearDown.beh with
   | .completed r => afterTearDown r w
   | .pending => updU (fun u => { u with pos := .tearDown }) w
 
 def afterBody (p : Prog) (r : Option Exc) (w : W) : W := startTearDown p (updU (Chain.noteMain r) w)
 
 def startBody (p : Prog) (w : W) : W :=
-  let w := launch .body p.body.stage (updU (Chain.register p.body.cleanups) w)
-  match statusOf p.body.stage.beh with
+  let w := launch .body p.body (updU (Chain.register p.body.cleanups) w)
+  match statusOf p.body.beh with
   | .completed r => afterBody p r w
   | .pending => updU (fun u => { u with pos := .body }) w
 
 def afterSetUp (p : Prog) (r : Option Exc) (w : W) : W :=
   match r with
-  | some k => let w := updU (Chain.caught k) w; runCleanups w.u.stack w
+  | some k => cleanUp (updU (Chain.caught k) w)
   | none => startBody p w
 
 def startSetUp (p : Prog) (w : W) : W :=
-  let w := launch .setUp p.setUp.stage (updU (Chain.register p.setUp.cleanups) w)
-  match statusOf p.setUp.stage.beh with
+  let w := launch .setUp p.setUp (updU (Chain.register p.setUp.cleanups) w)
+  match statusOf p.setUp.beh with
   | .completed r => afterSetUp p r w
   | .pending => updU (fun u => { u with pos := .setUp }) w
 
@@ -225,11 +248,9 @@ def exec (p : Prog) (_ : Nat) (a : CAct) (w : W) : W :=
 
 /-! ## sizes (fuel) -/
 
-def stageCalls (s : Stage) : Nat := s.sides.length + 1
-def mstageCalls (m : MStage) : Nat := stageCalls m.stage + (m.cleanups.map stageCalls).sum
 /-- an upper bound of the number of delayed calls a run can ever schedule -/
 def bound (p : Prog) : Nat :=
-  p.stops.length + 1 + mstageCalls p.setUp + mstageCalls p.body + mstageCalls p.tearDown
+  p.stops.length + 1 + p.setUp.calls + p.body.calls + p.tearDown.calls
 
 /-! ## the log fixtures -/
 
@@ -245,8 +266,10 @@ def reAdd (obs : List Nat) (cleanups : List Nat) : List Nat := cleanups.foldl (f
 inductive Ev | startTest | success | error | failure | skip | stopTest
 deriving DecidableEq, Repr
 
-/-- `_select_exception` + handler: the last exception that is not a skip, else the last one -/
+/-- `_select_exception` + handler: an exception that no handler claims wins (reported by the handler of last
+resort as an error, then re-raised); else the last exception that is not a skip, else the last one -/
 def outcomeOf (excs : List Exc) : Ev :=
+  if excs.contains .ki then .error else
   match excs.reverse.find? (· != .skip) with
   | some .fail => .failure
   | some _ => .error
@@ -339,7 +362,8 @@ def model (p : Prog) : Trace :=
   let junk := leftovers w                                    -- what `_clean` cancels and reports
   let cleaned : W := { w with calls := [], sels := [] }
   let a := account (getResult w.sp) w.u.excs w.u.logged w.u.dropped (!junk.isEmpty)
-  { events := [.startTest] ++ outcomeEvents a ++ [.stopTest], stopRequested := a.stopReq, raised := false,
+  { events := [.startTest] ++ outcomeEvents a ++ [.stopTest], stopRequested := a.stopReq,
+    raised := a.excs.contains .ki,                          -- `raise e` after `stopTest` for an unclaimed exception
     stages := w.u.stages, leftover := (w.calls.filter isLeftover).length,
     pending := cleaned.calls.length,
     obsRestored := afterObs p == List.range p.nObs,
